@@ -220,6 +220,15 @@ def compare(ast, sm, schema, text, rng=None):
         m.update((nm, recorder(nm)) for nm in distinct)
         m["zz-unused"] = recorder("zz")
         dupmaps.append(m)
+        # ... also when one or both of the two spellings are mapped to None
+        victim = distinct[-1]
+        if victim.upper() != victim:
+            for first, second in ((None, recorder(victim)), (recorder(victim), None), (None, None)):
+                for a_, b_ in ((victim, victim.upper()), (victim.upper(), victim)):
+                    m = {a_: first}
+                    m.update((nm, recorder(nm)) for nm in distinct if nm != victim)
+                    m[b_] = second
+                    dupmaps.append(m)
         for m in dupmaps:
             calls[:] = []
             try:
